@@ -82,7 +82,7 @@ def bounds(tier):
     # so the union over signals still covers all of G; stride 1 = the full grid for every signal
     if tier == 'quick':
         return {'max_len': 6, 'fb_sizes': (32,), 'extra3': (), 'stride_fa': 3, 'stride_fb': 6, 'stride_noise': 16}
-    return {'max_len': 7, 'fb_sizes': (32, 64, 200), 'extra3': (8, 9), 'stride_fa': 1, 'stride_fb': 1, 'stride_noise': 2}
+    return {'max_len': 7, 'fb_sizes': (32, 64, 200), 'extra3': (8, 9), 'stride_fa': 1, 'stride_fb': 1, 'stride_noise': 8}
 
 
 def _cfgs(final, stride, rot):
